@@ -7,7 +7,9 @@ LEVEL_TEXT = ("Bounded symbolic verification of the real code: the anchored func
               "symbolic numbers (z3 Real terms inside numpy object arrays / CrossHair for integer code), the "
               "property becomes an assertion over all input values within the stated bounds and z3 decides the "
               "negation (unsat = holds for every value within the bound; sat = concrete counterexample, replayed "
-              "on the unpatched code before it is reported). Not a proof beyond the bounds.")
+              "on the unpatched code before it is reported); element equalities that are polynomial identities are "
+              "discharged beforehand by a normal form (z3's rewriter, then reduction modulo the square rules the "
+              "engine has assumed), counted separately in the evidence. Not a proof beyond the bounds.")
 NOTE = ("Trusted: z3 5.1 verdicts, numpy object-array dispatch, the stub contracts (eigh/inv/fft/spline/exp) named in "
         "the evidence file, Python floats modelled as exact reals. Bounds and clauses outside the claim are listed "
         "in DESIGN.md section 4 and in evidence.coverage.bounds.")
